@@ -441,6 +441,7 @@ def smtpd_worker(bdir, hbin, lo, hi, per):
             res.violate("C17/smtp-e2e/address-differs", "address received by qmail-smtpd differs from the one qmail-remote encoded", wit)
         else:
             res.counters.inc("smtpd_sessions_exact")
+            res.sample({"smtp_address": core.hx(addrs[0]), "sent_as": core.hx(b"RCPT TO:<" + mang[0] + b">")}, cap=1)
     return res
 
 
@@ -462,10 +463,16 @@ def main(tier):
             jobs.append(["enum", L, lo, hi])
     for j in range(16):
         jobs.append(["rand", nrand // 16, core.seed() * 1000 + j, 64 if j % 4 else 250])
-    res = hrun.run_many(hbin, jobs, env, timeout=3600)
-    res.merge(core.pmap(lists_worker, [(hbin, env, lo, hi) for lo, hi in core.chunks(nlists, core.JOBS * 2)], timeout=7200))
-    res.merge(core.pmap(inject_worker, [(b.dir, lo, hi) for lo, hi in core.chunks(ninj, core.JOBS * 2)], timeout=14400))
-    res.merge(core.pmap(smtpd_worker, [(b.dir, hbin, lo, hi, 40) for lo, hi in core.chunks(nsess, core.JOBS)], timeout=7200))
+    res = core.Result()
+    parts = [
+        hrun.run_many(hbin, jobs, env, timeout=3600),
+        core.pmap(lists_worker, [(hbin, env, lo, hi) for lo, hi in core.chunks(nlists, core.JOBS * 2)], timeout=7200),
+        core.pmap(inject_worker, [(b.dir, lo, hi) for lo, hi in core.chunks(ninj, core.JOBS * 2)], timeout=14400),
+        core.pmap(smtpd_worker, [(b.dir, hbin, lo, hi, 40) for lo, hi in core.chunks(nsess, core.JOBS)], timeout=7200),
+    ]
+    for part in parts:
+        part.samples = part.samples[:3]          # real cases from every part in the evidence
+        res.merge(part)
     rule = ("(a) every local part of length <= %d over the 20-symbol alphabet ( ) < > @ , ; : \\ \" . [ ] SP CR TAB 0x80 0xff a B, "
             "plus %d random local parts of 1-64 (a quarter: 1-250) bytes without NUL/LF, each through quote2 -> token822_parse -> addrlist -> "
             "unquote, token822_unparse -> parse again, and addrmangle -> smtpd addrparse; (b) %d generated RFC 822 fields (comments, "
